@@ -1,8 +1,8 @@
 #!/bin/bash
 # benign.sh [pattern] : run every quick check against each property-preserving variant in benign/*.diff (scratch worktree,
-# /repo untouched) and print one line per variant: SILENT, or the checks that raised an alarm or were inconclusive.
+# /repo untouched; BENIGN_IDS="C05 C11" restricts the checks) and print one line per variant: SILENT, or the checks that raised an alarm or were inconclusive.
 cd "$(dirname "$0")/.."
-ids=$(python3 -c "import json;print(' '.join(c['property_id'] for c in json.load(open('MANIFEST.json'))['checks']))")
+ids=${BENIGN_IDS:-$(python3 -c "import json;print(' '.join(c['property_id'] for c in json.load(open('MANIFEST.json'))['checks']))")}
 for f in benign/${1:-*}.diff; do
   out=$(WIDTH=300 tools/withpatch.sh $f $ids 2>&1 | grep "check=" | grep -v "rc=0")
   if [ -z "$out" ]; then echo "SILENT $(basename $f .diff)"; else echo "ALARM $(basename $f .diff)"; echo "$out" | cut -c1-400; fi
